@@ -774,7 +774,7 @@ func init() {
 				path = append(path, i)
 			}
 
-			key, detail := c10PersistRun(path, c10Ops())
+			key, detail := c10PersistRunFrom(path, c10Ops(), c["alt"] == "true")
 
 			return key == "", key + " " + detail
 		}
